@@ -639,8 +639,12 @@ def draw_partition(ch: Choices, n_defs: int, label="lay") -> Optional[List[Tuple
     return [f for f in files if f[1]]
 
 
+FILE_TAILS = ["\n", "\n", "", "\n# end of file", "  # trailing comment", "\n\n\n"]
+
+
 def materialize(world, root: str, schema_partition=None, queries_partition=None, creation_order_seed: Optional[int] = None,
-                extra_cfg: Optional[Dict[str, Any]] = None, remote_url: Optional[str] = None) -> Dict[str, Any]:
+                extra_cfg: Optional[Dict[str, Any]] = None, remote_url: Optional[str] = None,
+                tail_seed: Optional[int] = None) -> Dict[str, Any]:
     """Write the project into `root`.  Returns {"argv", "config_path", "targets", "cfg"}."""
     import random
     os.makedirs(root, exist_ok=True)
@@ -674,6 +678,10 @@ def materialize(world, root: str, schema_partition=None, queries_partition=None,
         writes.append((rel, text))
     if extra_cfg:
         cfg.update(extra_cfg)
+    if tail_seed is not None:
+        # how a GraphQL file ends is free: with or without a final newline, with a trailing comment, with blank lines
+        trng = random.Random(tail_seed)
+        writes = [(rel, (text.rstrip("\n") + trng.choice(FILE_TAILS)) if rel.endswith(tuple(EXTS)) else text) for rel, text in writes]
     if creation_order_seed is not None:
         random.Random(creation_order_seed).shuffle(writes)
     for rel, text in writes:
